@@ -201,10 +201,11 @@ func runC13(r *Run) {
 	w = Follows(fn, mintCall, isSetTS, nil)
 	r.Check(w == nil, "R2", fnID(fn)+"#timestamp-updated", P.Pos(instrPos(mintCall)), "block timestamp recorded after minting", "after minting a success exit is reachable without recording the block timestamp (the same interval would be minted again)", P.witness(w)...)
 	// the mint clock advances on every block that is accounted for — also one whose mint rounds to zero
-	negTrue := boolCallEdges(fn, "IsNegative")
-	wClk := PathQuery{Fn: fn, Block: isSetTS, Target: isSuccessExit, DelEdge: edgeSet(negTrue)}.Search()
-	r.Check(wClk == nil && len(negTrue) == 1, "R2", fnID(fn)+"#clock-advances-on-every-success", where, "every success exit records the block timestamp (tabled exception: the blockMint.IsNegative() 'state is corrupted' edge)",
-		"MintAndAllocate can return success without recording the block timestamp (other than over the single negative-amount edge): the block's interval is not consumed, so the next block that does mint pays for it again — 'elapsed' is no longer measured between consecutive block timestamps", P.witness(wClk)...)
+	// (no exception for the negative-amount branch: a negative reward coefficient — which parameter validation
+	// accepts — takes it on every block, and a clock frozen there is minted for in one block later)
+	wClk := PathQuery{Fn: fn, Block: isSetTS, Target: isSuccessExit}.Search()
+	r.Check(wClk == nil, "R2", fnID(fn)+"#clock-advances-on-every-success", where, "every success exit records the block timestamp",
+		"MintAndAllocate can return success without recording the block timestamp: the block's interval is not consumed, so the next block that does mint pays for it again — 'elapsed' is no longer measured between consecutive block timestamps", P.witness(wClk)...)
 	s := backSlice(minted)
 	deps := map[string]bool{
 		"TotalBondedTokens": s.HasCall(func(g CallInfo) bool { return g.Name == "TotalBondedTokens" }),
